@@ -42,8 +42,8 @@ BOUND = (
     "S x all 512 masks x adjust on/off in date order, and every S x every one of the 6 row permutations x "
     "adjust on/off for the 46 masks with at most 2 empty cells; (c) |S|=4: every S x adjust on/off x the 79 "
     "masks with at most 2 empty cells in date order, and every S x all 24 row permutations x adjust on/off with "
-    "all cells present. 'Extended' datasets (all of (a), the <=1-empty-cell datasets of (b), the all-present "
-    "datasets of (c); 3 570 datasets) additionally get: for every cut after the j-th bar (1<=j<|S|) a variant "
+    "all cells present. 'Extended' datasets (those with |S| + number of empty cells <= 4; 1 808 datasets "
+    "incl. the 2 header-only ones) additionally get: for every cut after the j-th bar (1<=j<|S|) a variant "
     "with the later rows rewritten (other prices, complemented masks) and a variant with the later rows "
     "removed; a second asset B (2 bars, first date != A's first date) loaded alone and together with A; "
     "interleaved A/B query sequences on the two-asset source; data handlers over the source lists [A,B], "
@@ -485,11 +485,12 @@ def thorough_units():
                     continue
                 for adjust in (True, False):
                     if k <= 2:
-                        perms, ext = _nonid_perms(k), True
+                        perms = _nonid_perms(k)
                     elif k == 3:
-                        perms, ext = (_nonid_perms(3) if ne <= 2 else []), ne <= 1
+                        perms = _nonid_perms(3) if ne <= 2 else []
                     else:
-                        perms, ext = (_nonid_perms(4), True) if ne == 0 else ([], False)
+                        perms = _nonid_perms(4) if ne == 0 else []
+                    ext = k + ne <= 4
                     units.append({"days": list(S), "mask": mask, "adjust": adjust, "perms": perms, "ext": ext})
     return units
 
@@ -536,7 +537,7 @@ def quick_units(seed, n_sample=135):
         ne = _n_empty(mask)
         allowed = _nonid_perms(k) if (k <= 2 or (k == 3 and ne <= 2) or (k == 4 and ne == 0)) else []
         perms = [rng.choice(allowed)] if allowed else []
-        ext = (k <= 2 or (k == 3 and ne <= 1) or (k == 4 and ne == 0)) and (n % 5 == 0)
+        ext = (k + ne <= 4) and (n % 5 == 0)
         unit = {"days": S, "mask": mask, "adjust": rng.random() < 0.5, "perms": perms, "ext": ext}
         key = _unit_key(unit)
         if key in seen:
